@@ -48,6 +48,7 @@ class Class:
     name: str
     node: ast.ClassDef
     methods: dict = field(default_factory=dict)  # name -> Func
+    setters: dict = field(default_factory=dict)  # property name -> Func of its @<name>.setter
     attrs: dict = field(default_factory=dict)  # class-level assignments name -> value node
 
     @property
@@ -137,7 +138,10 @@ class Repo:
                     f = Func(module=m, qualname=k, node=st, cls=cls)
                     m.funcs[k] = f
                     if cls is not None and prefix == cls.name + ".":
-                        cls.methods.setdefault(st.name, f)
+                        if any(isinstance(d, ast.Attribute) and d.attr == "setter" for d in st.decorator_list):
+                            cls.setters[st.name] = f  # @<name>.setter: what an assignment to the property runs
+                        else:
+                            cls.methods.setdefault(st.name, f)
                     visit(st.body, f"{k}.<locals>.", None)
                 elif isinstance(st, ast.ClassDef):
                     c = Class(module=m, name=st.name, node=st)
